@@ -143,6 +143,13 @@ def _store_accesses(a, attr: str):
                     kind = 'mutate' if par.attr in CONTAINER_MUTATORS else 'read'
             elif isinstance(par, ast.Call) and n in par.args and dotted(par.func).split('.')[-1] == 'prune_dict':
                 kind = 'prune'
+            elif isinstance(par, (ast.Tuple, ast.List)) and isinstance(pm.get(id(par)), ast.For) and pm[id(par)].iter is par \
+                    and isinstance(pm[id(par)].target, ast.Name):
+                # `for cache in (self._memos, self._results): prune_dict(cache, ...)`: what the loop does to its variable it does to the store
+                loop = pm[id(par)]
+                sub = _name_accesses(a, f, loop.body, loop.target.id, pm)
+                out.extend(sub if sub else [(f, n, 'read', par)])
+                continue
             elif isinstance(par, ast.Call) and n in par.args:
                 kind = 'escape'
                 # handed to a private helper of the same module: the helper's parameter is the store (what it does with it counts)
@@ -157,6 +164,31 @@ def _store_accesses(a, attr: str):
                         if sub is not None:
                             out.extend(sub)
                             continue
+            out.append((f, n, kind, par))
+    return out
+
+
+def _name_accesses(a, f, stmts, name: str, pm):
+    """accesses made through the local NAME inside STMTS of F (a loop variable ranging over stores)"""
+    out = []
+    for st in stmts:
+        for n in ast.walk(st):
+            if not (isinstance(n, ast.Name) and n.id == name):
+                continue
+            par = pm.get(id(n))
+            kind = 'read'
+            if isinstance(n.ctx, (ast.Store, ast.Del)):
+                kind = 'escape'
+            elif isinstance(par, ast.Subscript) and par.value is n:
+                kind = {'Store': 'write', 'Del': 'delete'}.get(type(par.ctx).__name__, 'read')
+            elif isinstance(par, ast.Attribute) and par.value is n:
+                gp = pm.get(id(par))
+                if isinstance(gp, ast.Call) and gp.func is par:
+                    kind = 'mutate' if par.attr in CONTAINER_MUTATORS else 'read'
+            elif isinstance(par, ast.Call) and n in par.args and dotted(par.func).split('.')[-1] == 'prune_dict':
+                kind = 'prune'
+            elif isinstance(par, ast.Call) and n in par.args:
+                kind = 'escape'
             out.append((f, n, kind, par))
     return out
 
